@@ -251,6 +251,25 @@ def run(ctx):
         if back != want:
             bad(dict(segments=segs, count=cnt, text=txt, parsed=repr(back)), 'a formatted path does not parse back to the same segments')
 
+    # numeric paths spelled with a trailing element term AND an explicit index (@c/i/a/e[x]): a path has at most one element segment
+    # (the explicit index), the description parses -> formats -> parses to the same operation
+    for _ in range(200 if ctx.thorough else 60):
+        c, i, a, e = rng.choice([0x99, 2, 0x6B]), rng.choice([1, 7]), rng.choice([1, 2, 26]), rng.choice([0, 2, 200])
+        x = rng.choice([0, 5, 12, 500]); y = x + rng.choice([0, 1, 2])
+        txt = '@%s/%d/%d/%d[%s]' % (rng.choice(['0x%02X' % c, str(c)]), i, a, e, '%d' % x if rng.random() < 0.5 else '%d-%d' % (x, y))
+        try:
+            op = list(client.parse_operations([txt]))[0]
+            segs = op['path']
+            again = list(client.parse_operations([client.format_path(segs, count=op.get('elements'))]))[0]
+        except Exception as ex:
+            bad(dict(text=txt, error=type(ex).__name__), 'a numeric path description was rejected'); continue
+        npath += 1
+        els = [sg for sg in segs if 'element' in sg]
+        if len(els) != 1 or els[0]['element'] != x or segs[:3] != [{'class': c}, {'instance': i}, {'attribute': a}]:
+            bad(dict(text=txt, parsed=repr(segs)), 'a numeric path description does not denote one element: the explicit index')
+        elif again != op:
+            bad(dict(text=txt, parsed=repr(op), formatted=client.format_path(segs, count=op.get('elements')), parsed_again=repr(again)),
+                'a formatted path does not parse back to the same operation')
     # ---------------- the live client
     proc, port = start_simulator()
     nrun = 0
